@@ -35,7 +35,7 @@ func (w *World) pointHit(site string) {
 	if len(w.pointsSeen) < 4000 {
 		w.pointsSeen = append(w.pointsSeen, name)
 	}
-	armed := w.armed[name]
+	armed := w.armed[name] || w.armed[site+"#*"] // "<site>#*": every goroutine that reaches the site is held there
 	w.mu.Unlock()
 	if armed {
 		w.Log("pt", "preempted", -1, name)
